@@ -39,3 +39,12 @@ Theorem C02_bounded_push : forall (A : Type) cap (x : A) l,
   (length l <= cap)%nat -> (length (fst (sat_push_back cap x l)) <= cap)%nat.
 Proof. exact (fun A => @sat_push_back_length A). Qed.
 Print Assumptions C02_bounded_push.
+
+(* on the fragment of C04 the whole-model statement is a theorem: no Panic and no OutOfFuel outcome for any covered
+   history (corollary of the refinement theorem) *)
+From KV Require Import Spec.Keymap Proofs.C04Refine.
+Theorem C02_fragment_never_panics : forall cfg pause is,
+  frag_cfg cfg = true -> hist_ok cfg 0 is = true ->
+  exists outs, l_run cfg (init_layout pause) is = Ok outs.
+Proof. exact fragment_never_panics. Qed.
+Print Assumptions C02_fragment_never_panics.
